@@ -329,6 +329,9 @@ Section ZScan.
     assert (E2 : (c + count <? start) = false) by (unfold start; destruct (c =? 0) eqn:Eq1; lia). rewrite E2.
     assert (E3 : (start <? 0) = false) by (unfold start; destruct (c =? 0) eqn:Eq2; lia). rewrite E3.
     set (stop := if c + count >? n then n else c + count).
+    assert (Hws : wrap64 (stop - start) = stop - start).
+    { apply wrap64_id. unfold stop, start, n, two63 in *. destruct (c =? 0); destruct (c + count >? Z.of_nat (length l)); lia. }
+    rewrite Hws.
     destruct (stop - start <? 0) eqn:E4.
     - (* nothing in range: the set is empty or c = n and ... *)
       exists []. split; [reflexivity|]. split; [intros e []|].
